@@ -31,6 +31,13 @@ type c12Runner struct {
 	ops    map[string]float64
 }
 
+func (r *c12Runner) flag() string {
+	if r.cur != nil && r.cur.Allow {
+		return ", AllowRFC6962ArchivalLeafs"
+	}
+	return ""
+}
+
 func (r *c12Runner) viol(scenario, format string, a ...any) {
 	r.nviol++
 	r.rp.Violation("C12", scenario, r.cur, format, a...)
@@ -49,13 +56,31 @@ func (r *c12Runner) guard(what string, f func()) {
 	f()
 }
 
-// c12Mismatch compares the Merkle-covered fields of e with ground truth g.
-func c12Mismatch(e *LogEntry, g *verifmc.RefEntry) string {
+// c12Mismatch compares the Merkle-covered fields of e with the committed leaf g.
+// allow is the client's AllowRFC6962ArchivalLeafs setting: an archival leaf (no
+// leaf_index extension) may only be returned by a client that allows it, flagged
+// as such and with LeafIndex 0; a non-archival leaf is never flagged archival.
+func c12Mismatch(e *LogEntry, g *verifmc.RefEntry, allow bool) string {
+	if e != nil && c12IsArchival(g) {
+		switch {
+		case !allow:
+			return "archival leaf (no leaf_index extension) returned by a client without AllowRFC6962ArchivalLeafs"
+		case !e.RFC6962ArchivalLeaf:
+			return "committed leaf is archival but the entry is not flagged RFC6962ArchivalLeaf"
+		case e.LeafIndex != 0:
+			return fmt.Sprintf("archival entry with LeafIndex %d, documented 0", e.LeafIndex)
+		}
+		c := *g
+		c.Index = 0
+		e2 := *e
+		e2.RFC6962ArchivalLeaf = false
+		return c12Mismatch(&e2, &c, allow)
+	}
 	switch {
 	case e == nil:
 		return "nil entry"
 	case e.RFC6962ArchivalLeaf:
-		return "entry flagged as RFC 6962 archival leaf (no leaf index)"
+		return "entry flagged as RFC 6962 archival leaf although the committed leaf carries a leaf index"
 	case e.IsPrecert != g.IsPrecert:
 		return fmt.Sprintf("IsPrecert %v, committed %v", e.IsPrecert, g.IsPrecert)
 	case !bytes.Equal(e.Certificate, g.Cert):
@@ -93,13 +118,13 @@ func (r *c12Runner) iterate(l *c12Log, start int64, all bool) (yielded int, clea
 		name = "AllEntries"
 	}
 	r.ops[name]++
-	what := fmt.Sprintf("%s(log %s, start %d)", name, l.id, start)
+	what := fmt.Sprintf("%s(log %s%s, start %d)", name, l.id, r.flag(), start)
 	r.guard(what, func() {
 		var it iter.Seq2[int64, *LogEntry]
 		if all {
-			it = l.client.AllEntries(context.Background(), l.tree(), start)
+			it = l.cl(r.cur.Allow).AllEntries(context.Background(), l.tree(), start)
 		} else {
-			it = l.client.Entries(context.Background(), l.tree(), start)
+			it = l.cl(r.cur.Allow).Entries(context.Background(), l.tree(), start)
 		}
 		next := start
 		for i, e := range it {
@@ -109,7 +134,7 @@ func (r *c12Runner) iterate(l *c12Log, start int64, all bool) (yielded int, clea
 			}
 			if i < 0 || i >= int64(l.n) {
 				r.viol("entries-unauthentic", "%s yielded index %d outside the tree", what, i)
-			} else if m := c12Mismatch(e, &l.entries[i]); m != "" {
+			} else if m := c12Mismatch(e, &l.entries[i], r.cur.Allow); m != "" {
 				r.viol("entries-unauthentic", "%s yielded an entry at index %d that is not the committed leaf: %s", what, i, m)
 			}
 			next = i + 1
@@ -118,7 +143,7 @@ func (r *c12Runner) iterate(l *c12Log, start int64, all bool) (yielded int, clea
 				break
 			}
 		}
-		if err := l.client.Err(); err == nil {
+		if err := l.cl(r.cur.Allow).Err(); err == nil {
 			clean = true
 			if want := l.stopPoint(start, all); next != want {
 				r.viol("entries-silent-stop", "%s ended without error at index %d, expected to reach %d", what, next, want)
@@ -151,10 +176,10 @@ func (r *c12Runner) checkProof(what string, l *c12Log, idx int, proof tlog.Recor
 
 func (r *c12Runner) entry(l *c12Log, idx int) bool {
 	r.ops["Entry"]++
-	what := fmt.Sprintf("Entry(log %s, index %d)", l.id, idx)
+	what := fmt.Sprintf("Entry(log %s%s, index %d)", l.id, r.flag(), idx)
 	okc := false
 	r.guard(what, func() {
-		e, proof, err := l.client.Entry(context.Background(), l.tree(), int64(idx))
+		e, proof, err := l.cl(r.cur.Allow).Entry(context.Background(), l.tree(), int64(idx))
 		if err != nil {
 			return
 		}
@@ -163,8 +188,11 @@ func (r *c12Runner) entry(l *c12Log, idx int) bool {
 			r.viol("entry-unauthentic", "%s succeeded for an index outside the tree", what)
 			return
 		}
-		if m := c12Mismatch(e, &l.entries[idx]); m != "" {
+		if m := c12Mismatch(e, &l.entries[idx], r.cur.Allow); m != "" {
 			r.viol("entry-unauthentic", "%s returned an entry that is not the committed leaf: %s", what, m)
+		}
+		if e != nil && !e.RFC6962ArchivalLeaf && e.LeafIndex != int64(idx) {
+			r.viol("entry-index", "%s returned a non-archival leaf whose LeafIndex is %d, not the requested index", what, e.LeafIndex)
 		}
 		r.checkProof(what, l, idx, proof)
 	})
@@ -176,10 +204,10 @@ func (r *c12Runner) entry(l *c12Log, idx int) bool {
 // authentic leaf.
 func (r *c12Runner) checkInclusion(l *c12Log, sct []byte, label string) bool {
 	r.ops["CheckInclusion"]++
-	what := fmt.Sprintf("CheckInclusion(log %s, %s)", l.id, label)
+	what := fmt.Sprintf("CheckInclusion(log %s%s, %s)", l.id, r.flag(), label)
 	okc := false
 	r.guard(what, func() {
-		e, proof, err := l.client.CheckInclusion(context.Background(), l.tree(), sct)
+		e, proof, err := l.cl(r.cur.Allow).CheckInclusion(context.Background(), l.tree(), sct)
 		if err != nil {
 			return
 		}
@@ -201,16 +229,17 @@ func (r *c12Runner) checkInclusion(l *c12Log, sct []byte, label string) bool {
 			return
 		}
 		g := &l.entries[idx]
-		if g.Index != idx {
+		// (an archival leaf carries no leaf index to compare the SCT's with)
+		if !c12IsArchival(g) && g.Index != idx {
 			r.viol("sct-confirmed", "%s confirmed an SCT with leaf index %d, but the leaf committed there has leaf_index %d", what, idx, g.Index)
 		}
 		if uint64(g.Timestamp) != s.Ts {
 			r.viol("sct-confirmed", "%s confirmed an SCT with timestamp %d, the authentic leaf %d has %d", what, s.Ts, idx, g.Timestamp)
 		}
-		if s.HashAlg != 4 || s.SigAlg != 3 || !r.w.key.verify(g.MerkleTreeLeaf(), s.Sig) {
+		if s.HashAlg != 4 || s.SigAlg != 3 || !r.w.key.verify(c12MerkleLeaf(g), s.Sig) {
 			r.viol("sct-confirmed", "%s confirmed an SCT whose signature (alg %d/%d) is not the log key's over the authentic leaf %d", what, s.HashAlg, s.SigAlg, idx)
 		}
-		if m := c12Mismatch(e, g); m != "" {
+		if m := c12Mismatch(e, g, r.cur.Allow); m != "" {
 			r.viol("sct-unauthentic", "%s returned an entry that is not the committed leaf %d: %s", what, idx, m)
 		}
 		r.checkProof(what, l, int(idx), proof)
@@ -223,7 +252,7 @@ func (r *c12Runner) checkpoint(l *c12Log) bool {
 	what := fmt.Sprintf("Checkpoint(log %s)", l.id)
 	okc := false
 	r.guard(what, func() {
-		cp, n, err := l.client.Checkpoint(context.Background())
+		cp, n, err := l.cl(r.cur.Allow).Checkpoint(context.Background())
 		if err != nil {
 			return
 		}
@@ -262,7 +291,7 @@ func (r *c12Runner) issuer(l *c12Log, j int) bool {
 	what := fmt.Sprintf("Issuer(log %s, %d)", l.id, j)
 	okc := false
 	r.guard(what, func() {
-		cert, err := l.client.Issuer(context.Background(), r.w.issuerFP[j])
+		cert, err := l.cl(r.cur.Allow).Issuer(context.Background(), r.w.issuerFP[j])
 		if err != nil {
 			return
 		}
@@ -382,7 +411,7 @@ func (r *c12Runner) runTiles(l *c12Log, c *c12Case) string {
 		seen[i] = true
 		count(r.entry(l, i))
 		if k < 1 || (r.pl.thorough && k < 2) { // the first (thorough: first two) targeted indexes also through CheckInclusion
-			sct := r.w.sct(r.w.key, int(l.entries[i].Index)).bytes()
+			sct := l.sct(r.w.key, i).bytes()
 			count(r.checkInclusion(l, sct, fmt.Sprintf("authentic SCT of leaf %d", i)))
 		}
 		k++
@@ -397,26 +426,48 @@ func (r *c12Runner) runPristine(l *c12Log) string {
 		panic(verifmc.EngineError{Msg: "c12: pristine log " + l.id + ": " + fmt.Sprintf(format, a...)})
 	}
 	before := r.nviol
+	allow := r.cur.Allow
 	for _, all := range []bool{false, true} {
-		for _, s := range append(l.starts(), int64(l.n), int64(l.n)+300) {
-			y, clean := r.iterate(l, s, all)
-			if !clean {
-				fail("iteration from %d failed: %v", s, l.client.Err())
+		starts := append(l.starts(), int64(l.n), int64(l.n)+300)
+		if l.n <= 8 {
+			starts = starts[:0]
+			for s := int64(0); s <= int64(l.n)+1; s++ {
+				starts = append(starts, s)
 			}
-			if want := l.stopPoint(s, all) - s; int64(y) != want {
-				fail("iteration from %d yielded %d entries, expected %d", s, y, want)
+		}
+		for _, s := range starts {
+			y, clean := r.iterate(l, s, all)
+			// control: a client without AllowRFC6962ArchivalLeafs stops with an error at the first archival leaf
+			want, wantClean := l.stopPoint(s, all)-s, true
+			if !allow {
+				for i := s; i < l.stopPoint(s, all); i++ {
+					if c12IsArchival(&l.entries[i]) {
+						want, wantClean = i-s, false
+						break
+					}
+				}
+			}
+			if clean != wantClean {
+				fail("iteration from %d (allow=%v): clean=%v, expected %v: %v", s, allow, clean, wantClean, l.cl(allow).Err())
+			}
+			if int64(y) != want {
+				fail("iteration from %d (allow=%v) yielded %d entries, expected %d", s, allow, y, want)
 			}
 		}
 	}
 	for i := 0; i < l.n; i++ {
-		// a position holding a leaf committed with another leaf_index (evil logs) carries no expectation
-		committedHere := l.entries[i].Index == int64(i)
+		// a position holding a leaf committed with another leaf_index (evil logs) carries no expectation;
+		// an archival leaf is expected through the allowing client only (refusal by the other one is
+		// enforced by the oracle itself)
+		arch := c12IsArchival(&l.entries[i])
+		committedHere := l.entries[i].Index == int64(i) || (arch && allow)
 		if ok := r.entry(l, i); !ok && committedHere {
-			fail("Entry(%d) failed", i)
+			fail("Entry(%d) (allow=%v) failed", i, allow)
 		}
 		if i < 4 || i >= l.n-4 || i%64 == 0 {
-			sct := r.w.sct(r.w.key, int(l.entries[i].Index)).bytes()
-			if ok := r.checkInclusion(l, sct, fmt.Sprintf("authentic SCT of leaf %d", l.entries[i].Index)); !ok {
+			sct := l.sct(r.w.key, i).bytes()
+			// the authentic SCT of an archival leaf has no leaf_index extension and cannot be looked up
+			if ok := r.checkInclusion(l, sct, fmt.Sprintf("authentic SCT of leaf %d", l.entries[i].Index)); !ok && !arch {
 				fail("CheckInclusion(authentic SCT of %d) failed", l.entries[i].Index)
 			}
 		}
@@ -502,8 +553,11 @@ func (r *c12Runner) runCkpt(l *c12Log, c *c12Case) string {
 
 func (r *c12Runner) mutateSCT(l *c12Log, c *c12Case) []byte {
 	w := r.w
-	idx := int(l.entries[c.Entry].Index)
-	s := *w.sct(w.key, idx)
+	idx := int(l.entries[c.Entry].Index) // the index the authentic SCT carries
+	if idx < 0 {
+		idx = c.Entry // archival leaf: the authentic SCT carries none; index mutations start from the position
+	}
+	s := *l.sct(w.key, c.Entry)
 	switch c.Mut {
 	case "authentic":
 	case "ts+1":
@@ -517,13 +571,13 @@ func (r *c12Runner) mutateSCT(l *c12Log, c *c12Case) []byte {
 	case "idx-set":
 		s.Ext = c12IndexExt(int64(c.Arg))
 	case "sct-of":
-		s = *w.sct(w.key, int(l.entries[c.Arg].Index))
+		s = *l.sct(w.key, c.Arg)
 	case "logid-other":
 		s.LogID = w.other.logID
 	case "sig-other-key":
-		s.Sig = w.sct(w.other, idx).Sig
+		s.Sig = l.sct(w.other, c.Entry).Sig
 	case "all-other-key":
-		s = *w.sct(w.other, idx)
+		s = *l.sct(w.other, c.Entry)
 	case "version1":
 		s.Version = 1
 	case "ext-empty":
@@ -535,7 +589,7 @@ func (r *c12Runner) mutateSCT(l *c12Log, c *c12Case) []byte {
 	case "sig-empty":
 		s.Sig = nil
 	case "sig-of-neighbour":
-		s.Sig = w.sct(w.key, idx^1).Sig
+		s.Sig = w.sctFor(w.key, &w.entries[idx^1]).Sig
 	case "hashalg":
 		s.HashAlg = byte(c.Arg)
 	case "sigalg":
